@@ -6,7 +6,11 @@ package nebula
 //
 //  V: c35v.ndjson — every row of the gate table (node role x sender's relation to the configured lighthouses x kind of
 //     sender x message type x claimed address x encoding x payload) after a legitimate warm-up.
-//  R: c35r.ndjson — histories of up to three messages.
+//  R: c35r.ndjson — histories of up to three steps (messages and configuration reloads).
+// A step of type "Reload" reloads the node's real configuration object (lighthouse.hosts, lighthouse.am_lighthouse,
+// static_host_map entries of new lighthouses) through config.C.ReloadConfigString, i.e. through the callback
+// NewLightHouseFromConfig registered; the LightHouseHandler object created at start-up keeps being used, as in a reader
+// routine.  The gate table holds every row once more after a reload that adds / removes the sender.
 // After every message the effects (messages sent, punches, punch-back, handshake trigger) and the address cache are
 // projected and compared: against the statement (Permitted: a violation) and against the specification's machine
 // (a difference that the statement permits is reported as drift of the machinery, never as a violation).
@@ -41,7 +45,7 @@ type c35Vec struct {
 	Exp []c35Step `json:"exp"`
 }
 
-var c35StaticOf = map[string]int{"L0": 31, "S1": 32, "S2": 33, "S6": 34}
+var c35StaticOf = map[string]int{"L0": 31, "S1": 32, "S2": 33, "S6": 34, "O1": 35}
 
 func c35Has(s []string, x string) bool {
 	for _, y := range s {
@@ -134,26 +138,79 @@ func c35Run(t *testing.T, res *vResult, file string, line []byte, drift *[]any) 
 		n := lhNewNode(t, lhNodeCfg{Am: v.In.Am, Lhs: v.In.Lhs, Statics: statics})
 		defer n.close()
 		role := map[bool]string{true: "lighthouse", false: "client"}[v.In.Am]
+		lhs := v.In.Lhs // lighthouse.hosts now
+		everLh := map[string]bool{}
+		for _, h := range lhs {
+			everLh[h] = true
+		}
+		reloaded, flipped := false, false
 		for si := range v.In.Msgs {
 			m := &v.In.Msgs[si]
 			e := v.Exp[si]
 			before := n.cells()
-			n.handle(m)
+			if m.T == "Reload" {
+				statics := map[string][]int{}
+				for _, h := range m.Lhs {
+					statics[h] = []int{c35StaticOf[h]}
+					everLh[h] = true
+				}
+				n.reload(m.Lhs, v.In.Am != m.Flip, statics)
+				lhs, reloaded, flipped = m.Lhs, true, m.Flip
+			} else {
+				n.handle(m)
+			}
 			eff := c35NormEff(n.settle())
 			view, keys := n.view()
 			after := n.cells()
 			res.Hit("type:" + m.T)
 
+			// the sender's relation to lighthouse.hosts: now, and before the reloads
 			sender := "peer"
 			for _, f := range m.From {
-				if c35Has(v.In.Lhs, f) {
+				if everLh[f] {
+					sender = "removed-lighthouse"
+				}
+			}
+			for _, f := range m.From {
+				if c35Has(lhs, f) {
 					sender = "lighthouse"
+					if !c35Has(v.In.Lhs, f) {
+						sender = "added-lighthouse"
+					}
+				}
+			}
+			if reloaded && m.T != "Reload" {
+				res.Hit("after-reload:from-" + sender)
+				if flipped {
+					res.Hit("after-reload:am_lighthouse-flipped-in-file")
 				}
 			}
 			class := fmt.Sprintf("%s:from-%s:%s:claims-%s:v%d", role, sender, m.T, c35Claim(m), m.Enc)
-			detail := map[string]any{"am_lighthouse": v.In.Am, "lighthouses": v.In.Lhs, "history": v.In.Msgs[:si+1], "step": si,
+			if flipped {
+				class = "am_lighthouse-flipped-in-file:" + class
+			}
+			detail := map[string]any{"am_lighthouse": v.In.Am, "lighthouses_at_start": v.In.Lhs, "lighthouses_now": lhs, "history": v.In.Msgs[:si+1], "step": si,
 				"observed_effects": eff, "observed_cache": view, "specified_effects": e.Eff, "specified_cache": e.View, "permitted": e.Perm}
 			bad := false
+			if m.T == "Reload" {
+				// machine level: the reload took (lighthouse.hosts) resp. did not take (the role); the cache gains my own
+				// static entries only; nothing is sent, punched or triggered
+				got := []string{}
+				for _, a := range n.lh.GetLighthouses() {
+					got = append(got, lhName(a))
+				}
+				if !reflect.DeepEqual(lhSortedStrs(got), lhSortedStrs(m.Lhs)) || n.lh.amLighthouse != v.In.Am ||
+					!reflect.DeepEqual(eff, c35NormEff(e.Eff)) || !reflect.DeepEqual(view, lhNormView(e.View)) {
+					detail["observed_lighthouses"], detail["observed_role"] = got, n.lh.amLighthouse
+					if len(*drift) < 5 {
+						*drift = append(*drift, detail)
+					}
+					res.Hit("drift")
+					// (noted, and the history goes on: what the node does with the next messages is judged by the
+					// statement, and a violation there is the verdict)
+				}
+				continue
+			}
 			// ---- the statement: only permitted kinds of effect
 			kinds := c35Kinds(eff)
 			for _, k := range kinds {
@@ -201,6 +258,14 @@ func c35Run(t *testing.T, res *vResult, file string, line []byte, drift *[]any) 
 			}
 			for _, k := range c35Kinds(want) {
 				res.Hit("spec-effect:" + k)
+			}
+			if reloaded && (m.T == "QueryReply" || m.T == "Punch") && m.Cl != "" {
+				// the gate decision after a reload, by the sender's relation to the old and the new lighthouse.hosts
+				verdict := "refused"
+				if len(kinds) > 0 {
+					verdict = "honoured"
+				}
+				res.Hit("after-reload:" + verdict + ":" + m.T + ":from-" + sender)
 			}
 		}
 	})
